@@ -307,6 +307,31 @@ def extra_streams(pid, tier, rng, scale):
             lines.append('p32 powf %x %x' % (rng.randint(0x38000000, 0x52000000), rng.randint(0x38000000, 0x52000000)))
         for a in (0x40000000, 0x48000000, 0x38000000, 0x52000000, 0x44000000):
             for b in (0x40000000, 0x48000000, 0x38000000, 0x52000000, 0x44000000, 0x3c000000): lines.append('p32 powf %x %x' % (a, b))
+        # powf outside the range the crate's own test samples: negative bases with integer exponents (sign logic: parity decided up
+        # to 2^23, where every P32E2 value is an even integer), bases next to 1 with huge exponents, zero / one / NaR special cases,
+        # arbitrary pairs (the oracle skips pairs whose result over- or underflows)
+        P_ = lambda v: rnd(32, 2, Fr(v))
+        ints = [1, 2, 3, 4, 5, 7, 8, 15, 16, 101, 1000, 65535, 65536, 65537] + [(1 << j) + d for j in (20, 21, 22, 23, 24) for d in (-3, -2, -1, 0, 1, 2, 3)]
+        bases = [P_(-1), P_(-2), P_(Fr(-3, 2)), P_(Fr(-1, 2)), P_(-3), P_(1), P_(2), 0xc0000001, 0xbfffffff, 0x40000001, 0x3fffffff, 0xc0000040, 0x40000040, 0, 0x80000000]
+        for x in bases:
+            for i_ in ints:
+                for sg in (1, -1):
+                    lines.append('p32 powf %x %x' % (x, P_(sg * i_) & M32))
+            for y in (0, 0x80000000, P_(Fr(1, 2)), P_(Fr(-1, 2)), P_(Fr(5, 2)), P_(Fr(1, 3)), 1, M32):
+                lines.append('p32 powf %x %x' % (x, y))
+        for _ in range(per):
+            x = rng.randint(0x20000000, 0x60000000); x = (-x) & M32 if rng.random() < 0.6 else x
+            y = P_(rng.choice(ints) * rng.choice((1, -1))) if rng.random() < 0.5 else P_(rng.randint(-300, 300))
+            lines.append('p32 powf %x %x' % (x, y & M32))
+        for _ in range(per):
+            x = 0x40000000 + rng.randint(-2000, 2000); x = (-x) & M32 if rng.random() < 0.5 else x
+            y = P_(rng.choice(ints) * rng.choice((1, -1))) if rng.random() < 0.7 else rng.getrandbits(32)
+            lines.append('p32 powf %x %x' % (x, y & M32))
+        for _ in range(per):
+            lines.append('p32 powf %x %x' % (rng.randint(1, 0x7fffffff), rng.getrandbits(32)))
+        # witnesses of the open finding POWF-6ULP (the stated bound 5 is exceeded by one encoding for about 1 pair in 2.7 million)
+        for w_ in ('4b20fd3b 4aaf62ec', '4aed239b 4af62261', '4b60fb8b 4a912c90', '4b1d6a09 4a7c9ae6', '4be1126d 4a0b1414'):
+            lines.append('p32 powf ' + w_)
     if pid == 'C12':
         # posit -> quire -> posit round trip and the state operations on single-posit states
         for qt, n in QT.items():
